@@ -1011,7 +1011,10 @@ impl CompositionGraph {
             })
             .collect::<Vec<_>>()
         {
-            self.remove_node(node);
+            // A dependent may already have been removed through another dependent
+            if self.graph.contains_node(node.0) {
+                self.remove_node(node);
+            }
         }
 
         // Remove the node from the graph
